@@ -22,13 +22,13 @@ Step == /\ HL < NB + MaxCalls
 Top == heap[HL]
 DerivExact == \A v \in VarNames :
     LET n == QNF(Top) IN
-    n.ok => LET dn == QNF(D(Top, v)) IN dn.ok => QEq(dn.q, QDeriv(n.q, v))
-SimpSound == LET n == QNF(Top)  s == QNF(Simp(Top)) IN (n.ok /\ s.ok) => QEq(n.q, s.q)
+    n.ok => LET dn == QNF(D(Top, v)) IN dn.ok => QEqSafe(dn.q, QDeriv(n.q, v))
+SimpSound == LET n == QNF(Top)  s == QNF(Simp(Top)) IN (n.ok /\ s.ok) => QEqSafe(n.q, s.q)
 SimpDefined == LET n == QNF(Top)  s == QNF(Simp(Top)) IN n.ok => (s.ok \/ s.why = "toobig")
 DSExact == \A v \in VarNames :
     LET n == QNF(Top) IN
-    n.ok => LET dn == QNF(DS(Top, v)) IN dn.ok => QEq(dn.q, QDeriv(n.q, v))
+    n.ok => LET dn == QNF(DS(Top, v)) IN dn.ok => QEqSafe(dn.q, QDeriv(n.q, v))
 HessSym == \A v \in VarNames, w \in VarNames :
-    LET a == QNF(H(Top, v, w))  b == QNF(H(Top, w, v)) IN (a.ok /\ b.ok) => QEq(a.q, b.q)
+    LET a == QNF(H(Top, v, w))  b == QNF(H(Top, w, v)) IN (a.ok /\ b.ok) => QEqSafe(a.q, b.q)
 ZeroForAbsent == \A v \in VarNames : v \notin TVars(Top) => IsC(DS(Top, v), 0)
 =============================================================================
